@@ -8,15 +8,22 @@ EXTENDS TtlRangeUniverse, TLC, Json
 CONSTANT Kind
 VARIABLE x
 
-Universe == CASE Kind = "ttl" -> TtlTexts
+Universe == CASE Kind = "ttl1" -> Ttl1
+              [] Kind = "ttl2" -> Ttl2
+              [] Kind = "ttl3" -> Ttl3
+              [] Kind = "ttle" -> TtlEdge
               [] Kind = "make" -> Ttl1
-              [] Kind = "via" -> TtlViaTexts
-              [] Kind = "range" -> RangeTexts
+              [] Kind = "via1" -> OneToken(Ttl1)
+              [] Kind = "via2" -> OneToken(Ttl2)
+              [] Kind = "via3" -> OneToken(ViaTtl3)
+              [] Kind = "viae" -> OneToken(TtlEdge)
               [] Kind = "srow" -> SRows
               [] Kind = "s32cmp" -> S32Pairs
               [] Kind = "s32add" -> S32Vals \X S32Amounts
 
-GInit == x \in Universe
+GInit == IF Kind = "range" THEN InRangeShort(x)
+         ELSE IF Kind = "rangelong" THEN InRangeLong(x)
+         ELSE x \in Universe
 GNext == FALSE /\ x' = x
 Emit == PrintT("BEH " \o ToJson(<<x>>))
 =============================================================================
